@@ -2753,7 +2753,7 @@ fn gen_c13x(ch: &mut Choices) -> Plan {
 // ------------------------------------------------------------------------------------------
 // C06L: one long connection - the identifier counter goes once round its 16-bit range
 
-pub const C06L_SENDS: usize = 65_536 + 64;
+pub const C06L_SENDS: usize = 65_536 + 1_200;
 
 fn gen_c06l(ch: &mut Choices) -> Plan {
     // (first draw = role: batch::mode_of makes it the run index modulo 4, so that the two runs of the quick
@@ -2762,17 +2762,17 @@ fn gen_c06l(ch: &mut Choices) -> Plan {
     let mut plan = base_plan("C06L", role, ch);
     plan.cut = Cut::All;
     plan.p_ext = *ch.pick(&[0u32, 150]);
-    // a window of 1..4 (or the default): a few exchanges overlap all the time
-    let window = *ch.pick(&[1u16, 2, 4, 16]);
+    // a window of 2..16: a few exchanges overlap all the time (also the two that straddle the wrap)
+    let window = *ch.pick(&[3u16, 4, 8, 16]);
     match role {
         Role::S5 => plan.peer.connect.props.push((33, PropVal::U16(window))),
         Role::S3 | Role::C3 => plan.cfg.max_send = window,
         Role::C5 => plan.peer.connack_props.push((33, PropVal::U16(window))),
     }
-    // three senders share the sends; most are QoS 1, now and then an exactly-once exchange or (clients) a
+    // five senders share the sends; most are QoS 1, now and then an exactly-once exchange or (clients) a
     // subscribe, so that every kind of exchange draws identifiers across the wrap
-    let per = C06L_SENDS / 3 + 1;
-    for s in 0..3 {
+    let per = C06L_SENDS / 5 + 1;
+    for s in 0..5 {
         let mut ops = Vec::with_capacity(per + 8);
         let mut k = 0usize;
         while ops.len() < per {
